@@ -1370,7 +1370,8 @@ def _seq_report(ctx, case, st, variant, sym, what, state, earlier, dd, pdf, phas
         # rewrite's finding, named like the pipeline families name it
         ctx.violation(_glabel(where, sym), msg, stage=stage, **detail)
     elif alone is None and earlier:
-        ctx.violation("sequence:%s:depends-on-earlier-operations:%s" % (variant, sym),
+        # one label per operation and symptom (the variants of an operation share the state that leaks)
+        ctx.violation("sequence:%s:depends-on-earlier-operations:%s" % (st["op"], sym),
                       "%s -- the same step alone on a differently named copy of the frame is fine; earlier "
                       "operations in this process: %s" % (msg, detail["earlier_steps"]), where=where, **detail)
     else:
